@@ -31,6 +31,8 @@ func (r *Result) violateFor(prop, what, key string, replay interface{}) {
 
 // buildScenario: one DAG, a reference node fed in creation order, further nodes
 // with other orders / sub-DAGs / stores / cache sizes / batchings.
+var failCommits = false // C02: one extra node's commit callback fails for a few blocks
+
 func buildScenario(rng *rand.Rand, o genOpts, extraNodes int, allowBatch bool, allowBadger bool, smallCache bool) *scenario {
 	d := newDag(rng, o.n0, o.extra)
 	sc := &scenario{opts: o, d: d}
@@ -58,6 +60,13 @@ func buildScenario(rng *rand.Rand, o genOpts, extraNodes int, allowBatch bool, a
 			}
 		}
 		nd := newNode(d, k, cache, dir)
+		if failCommits && k == 1 {
+			// the commit callback of this node reports an error for a few blocks (after applying them)
+			nd.failCommit = map[int]bool{}
+			for j := 0; j < 3; j++ {
+				nd.failCommit[rng.Intn(8)] = true
+			}
+		}
 		c.Op(fmt.Sprintf("HG new %d %s", k, intsOrDash(genesis)))
 		sc.nodes = append(sc.nodes, nd)
 		evs := d.events
@@ -66,14 +75,21 @@ func buildScenario(rng *rand.Rand, o genOpts, extraNodes int, allowBatch bool, a
 		}
 		order := topoOrder(rng, evs)
 		var batch func(i int) bool
-		if allowBatch && o.extra == 0 && rng.Intn(3) == 0 {
-			mode := rng.Intn(3)
+		if allowBatch && o.extra == 0 && (k <= 2 || rng.Intn(3) == 0) {
+			mode := rng.Intn(4)
+			if k == 1 {
+				mode = 1 // groups of 7 between passes
+			} else if k == 2 {
+				mode = 3 // larger random groups
+			}
 			batch = func(i int) bool {
 				switch mode {
 				case 0:
 					return false // one pass at the very end
 				case 1:
 					return i%7 == 6
+				case 3:
+					return rng.Intn(9) == 0
 				default:
 					return rng.Intn(4) == 0
 				}
@@ -474,7 +490,12 @@ func runHGWith(r *Result, thorough bool, prop string, rng *rand.Rand) {
 		if prop == "C18" {
 			extra = 1
 		}
+		failCommits = prop == "C02"
 		sc := buildScenario(rng, o, extra, prop == "C03", prop == "C03" || prop == "C02", prop == "C03")
+		failCommits = false
+		for _, nd := range sc.nodes {
+			r.Inc("commit_callback_failures_injected", nd.failed)
+		}
 		if prop == "C02" {
 			resetUsedNodes(r, sc, rng)
 		}
